@@ -211,7 +211,7 @@ func runC04(c *Ctx) {
 			// the wire forms of an acknowledgement and of a refusal (which one: a function of the case)
 			form := (idHash(fmt.Sprintf("%s#%d", k.name, idx)) / 3) % 8
 			_, isCommit := b.(message.GlobalCommitRequest)
-			if strings.HasPrefix(reply, "w") {
+			if strings.HasPrefix(reply, "w") && reply != "wrongtype" {
 				var rc, st int
 				fmt.Sscanf(reply, "w%d.%d", &rc, &st)
 				head := failHead("wire form")
